@@ -25,6 +25,12 @@ inline bool specIsMaster(uint8_t a) {
   auto ok = [](uint8_t n) { return n == 0 || n == 1 || n == 3 || n == 7 || n == 0xF; };
   return ok(a & 0xF) && ok(a >> 4);
 }
+/** master number 1..25 per the eBUS address table: priority class (low nibble) is the major, sub address (high nibble) the minor order */
+inline int specMasterNumber(uint8_t a) {
+  auto idx = [](uint8_t n) { return n == 0 ? 0 : n == 1 ? 1 : n == 3 ? 2 : n == 7 ? 3 : n == 0xF ? 4 : -1; };
+  int lo = idx(a & 0xF), hi = idx(a >> 4);
+  return lo < 0 || hi < 0 ? 0 : 5 * lo + hi + 1;
+}
 inline uint8_t specCrcStep(uint8_t data, uint8_t crc) {
   for (int i = 0; i < 8; i++) {
     uint8_t poly = (crc & 0x80) ? 0x9B : 0;
@@ -316,6 +322,7 @@ class Bus {
   long hostBytes = 0;
   std::deque<PeerScript> peers;         // behaviour for successive host initiated exchanges
   bool derivedResponses = false;        // default peers answer with data derived from the request (C04)
+  bool respBurst = false;               // responses of the addressed participant reach the host in one read
   // reactive state for host-initiated exchanges
   struct Track { int phase = 0; std::vector<uint8_t> wire; uint8_t crc = 0; bool esc = false; std::vector<uint8_t> part; int attempt = 0; bool crcOk = false;
                  int respAttempt = 0; } tr;
@@ -600,10 +607,12 @@ class Bus {
     int act = curPeer.cmdAck[std::min(tr.attempt, 1)];
     int64_t t = lastByteTime + SYM;
     if (act == 0) {
+      ackMark = g.rx.size();
       emitPeer(t, 0x00);
       if (specIsMaster(zz)) { tr.phase = 5; return; }
       tr.respAttempt = 0;
       sendResponse();
+      ackMark = (size_t)-1;
     } else if (act == 1) {
       emitPeer(t, 0xFF);
       tr.attempt++;
@@ -620,6 +629,7 @@ class Bus {
     }
   }
   bool repeatExpected = false;
+  size_t ackMark = (size_t)-1;   // index in the delivery queue of the acknowledge that precedes a response
   void emitPeer(int64_t t, uint8_t b) {
     // bypass trackBus recursion for peer bytes
     if (t < lastByteTime) t = lastByteTime;
@@ -638,10 +648,26 @@ class Bus {
     std::vector<uint8_t> w = specWire(part, curPeer.respCrcXor[tr.respAttempt]);
     int cut = curPeer.respCut[tr.respAttempt];
     int64_t t = lastByteTime;
+    size_t rxBefore = g.rx.size();
     for (size_t i = 0; i < w.size(); i++) {
       if (cut >= 0 && (int)i >= cut) break;
       t += SYM;
       emitPeer(t, w[i]);
+    }
+    // an adapter / USB / network hop may hand over the whole response in one piece: everything arrives with its last byte
+    // (together with the acknowledge before it when that is still on its way)
+    if (respBurst && !g.rx.empty()) {
+      size_t from = ackMark <= rxBefore ? ackMark : rxBefore;     // the acknowledge emitted right before (never the echo of the host's own bytes)
+      // in groups of 2..4 symbols: the added latency (< 17 ms) stays below the host's receive timeout
+      size_t i = from;
+      while (i < g.rx.size()) {
+        int64_t t0 = g.rx[i].t;
+        size_t j = i;
+        int grp = 2 + (rng ? (int)rng->below(3) : 1);
+        while (j + 1 < g.rx.size() && g.rx[j + 1].t - t0 < (int64_t)grp * SYM - SYM / 2) j++;
+        for (size_t k = i; k <= j; k++) g.rx[k].t = g.rx[j].t;
+        i = j + 1;
+      }
     }
     tr.phase = 3;
   }
